@@ -48,9 +48,11 @@ use undermoon::common::proto::{ClusterMapFlags, ProxyClusterMeta};
 use undermoon::common::utils::SLOT_NUM;
 use undermoon::protocol::verif_export::stateless::{parse_resp, ParseError};
 use undermoon::protocol::{
-    new_simple_packet_codec, Array, BulkStr, Resp, RespCodec, RespIndex, RespPacket,
+    new_simple_packet_codec, Array, BulkStr, Functor, Resp, RespCodec, RespIndex, RespPacket,
 };
+use undermoon::migration::task::parse_switch_command;
 use undermoon::proxy::command::Command;
+use undermoon::replication::replicator::ReplicatorMeta;
 use undermoon::proxy::service::{ClusterNodesVersion, ServerProxyConfig};
 use undermoon::proxy::slowlog::{SlowRequestLogger, Slowlog};
 
@@ -313,6 +315,35 @@ fn op_usize(b: &[u8]) -> String {
     }
 }
 
+fn resp_of(head: &[&str], args: &[Option<Vec<u8>>]) -> Resp<Vec<u8>> {
+    let mut l: Vec<Resp<Vec<u8>>> = head.iter().map(|h| Resp::Bulk(BulkStr::Str(h.as_bytes().to_vec()))).collect();
+    for a in args {
+        l.push(match a { Some(a) => Resp::Bulk(BulkStr::Str(a.clone())), None => Resp::Bulk(BulkStr::Nil) });
+    }
+    Resp::Arr(Array::Arr(l))
+}
+
+/// the control-plane parsers on hostile arguments: they must return (Ok or Err) without panicking and
+/// without asking for memory beyond a constant multiple of the argument bytes
+fn op_ctl_parser(which: &str, args: &[Option<Vec<u8>>]) -> (String, u64, u64) {
+    let bytes: u64 = args.iter().flatten().map(|a| a.len() as u64 + 16).sum::<u64>() + 64;
+    let (r, alloc) = measured(|| catch_unwind(AssertUnwindSafe(|| {
+        if which == "setrepl" {
+            let _ = ReplicatorMeta::from_resp(&resp_of(&["UMCTL", "SETREPL"], args));
+        } else {
+            let resp = resp_of(&["UMCTL", "SETCLUSTER"], args);
+            let _ = ProxyClusterMeta::from_resp(&resp);
+            // the same arguments read as a migration switch command
+            let sl = resp.as_ref().map(|a| a.as_slice());
+            let _ = parse_switch_command(&sl);
+        }
+    })));
+    match r {
+        Err(_) => ("PANIC".to_string(), alloc, bytes),
+        Ok(()) => (format!("done big={}", if alloc > 64 * bytes + (256 << 10) { 1 } else { 0 }), alloc, bytes),
+    }
+}
+
 fn parse_ranges(toks: &[&str]) -> Option<Vec<(usize, usize)>> {
     toks.iter().map(|t| { let mut it = t.split('-'); let a = it.next()?.parse::<usize>().ok()?; let b = it.next()?.parse::<usize>().ok()?; if it.next().is_some() { None } else { Some((a, b)) } }).collect()
 }
@@ -429,8 +460,38 @@ fn free_port() -> u16 {
     l.local_addr().expect("addr").port()
 }
 
+/// FNV over the sources the binary is built from: cargo decides by mtime, so a source file that was
+/// changed and restored with its old mtime (or the other way round) would leave a stale binary behind
+fn repo_source_hash() -> u64 {
+    fn walk(dir: &std::path::Path, acc: &mut Vec<std::path::PathBuf>) {
+        if let Ok(rd) = std::fs::read_dir(dir) {
+            for e in rd.flatten() {
+                let p = e.path();
+                if p.is_dir() { walk(&p, acc) } else if p.extension().map(|x| x == "rs").unwrap_or(false) { acc.push(p) }
+            }
+        }
+    }
+    let mut files = vec![std::path::PathBuf::from("/repo/Cargo.toml"), std::path::PathBuf::from("/repo/Cargo.lock")];
+    walk(std::path::Path::new("/repo/src"), &mut files);
+    files.sort();
+    let mut h = 0xcbf29ce484222325u64;
+    for f in files {
+        h = fnv_str(h, &f.to_string_lossy());
+        for b in std::fs::read(&f).unwrap_or_default() { h ^= b as u64; h = h.wrapping_mul(0x100000001b3); }
+    }
+    h
+}
+
 fn build_proxy_bin() -> Result<String, String> {
     let target = "/verif/.build/target-repo";
+    let stamp = format!("{}/server_proxy.srchash", target);
+    let want = format!("{:016x}", repo_source_hash());
+    if std::fs::read_to_string(&stamp).map(|t| t.trim() != want).unwrap_or(true) {
+        // the binary on disk was not (provably) built from these sources: rebuild the crate itself
+        let _ = std::fs::remove_file(&stamp);
+        let _ = Proc::new("cargo").args(["clean", "--release", "--offline", "--manifest-path", "/repo/Cargo.toml", "-p", "undermoon",
+            "--target-dir", target]).current_dir("/verif/harness").output();
+    }
     let out = Proc::new("cargo")
         .args(["build", "--release", "--offline", "--manifest-path", "/repo/Cargo.toml", "--bin", "server_proxy",
                "--target-dir", target])
@@ -447,6 +508,7 @@ fn build_proxy_bin() -> Result<String, String> {
         let e = String::from_utf8_lossy(&out.stderr);
         return Err(format!("building server_proxy failed: {}", &e[e.len().saturating_sub(600)..]));
     }
+    let _ = std::fs::write(&stamp, &want);
     Ok(format!("{}/release/server_proxy", target))
 }
 
@@ -864,6 +926,211 @@ fn elems_to_packet(elems: &[Vec<u8>], raw: &[(usize, Vec<u8>)]) -> Vec<u8> {
     o
 }
 
+/// boundary values for a numeric field of a control-plane command; `inproc`: no count between 10^6 and 2^59
+/// (a parser that reserved by such a count would abort this process instead of failing a test)
+fn ctl_num(rng: &mut Rng, inproc: bool) -> Vec<u8> {
+    let all: [&str; 14] = ["0", "1", "2", "2147483648", "4294967296", "100000000000000", "9223372036854775807",
+        "18446744073709551615", "18446744073709551616", "-1", "x", "", "+1", "1000000"];
+    let safe: [&str; 11] = ["0", "1", "2", "100000", "1000000", "9223372036854775807", "18446744073709551615",
+        "18446744073709551616", "-1", "x", ""];
+    if inproc { s(*rng.pick(&safe)) } else { s(*rng.pick(&all)) }
+}
+
+/// boundary strings for a name field: lengths around 31, multi-byte characters straddling bytes 23/24, 30/31
+/// and 100, spaces, non-UTF-8
+fn ctl_name(rng: &mut Rng) -> Vec<u8> {
+    let mb = *rng.pick(&["é", "ß", "中", "é", "Ａ", "€", "😀"]);
+    let pad = |n: usize, tail: &str| { let mut v = vec![b'a'; n]; v.extend_from_slice(tail.as_bytes()); v };
+    match rng.below(14) {
+        0 => vec![],
+        1 => vec![b'n'; 31],
+        2 => vec![b'n'; 32],
+        3 => pad(23, mb),                 // straddles byte 24
+        4 => pad(22, mb),
+        5 => pad(24, mb),
+        6 => pad(29, mb),                 // reaches bytes 30/31
+        7 => pad(30, mb),
+        8 => pad(99, mb),                 // straddles byte 100
+        9 => s("my db"),
+        10 => vec![0xff, 0xfe, b'a'],
+        11 => { let mut v = pad(23, mb); v.extend_from_slice(b"zz"); v }
+        12 => s("mydb"),
+        _ => pad(rng.range(0, 30) as usize, mb),
+    }
+}
+
+fn ctl_addr(rng: &mut Rng, local: &str) -> Vec<u8> {
+    match rng.below(12) {
+        0 => vec![],
+        1 => s("127.0.0.1:"),
+        2 => s(":1"),
+        3 => s("127.0.0.1:99999"),
+        4 => s("127.0.0.1"),
+        5 => s("127.0.0.1:7:8"),
+        6 => s("10.0.0.1:7001"),
+        7 => { let mut v = s("127.0.0.1:"); v.extend(vec![b'9'; 300]); v }
+        8 => "127.0.0.1:７００１".as_bytes().to_vec(),
+        9 => vec![b'1', 0xff, b':', b'1'],
+        _ => s(local),
+    }
+}
+
+fn ctl_range(rng: &mut Rng) -> Vec<u8> {
+    s(*rng.pick(&["0-16383", "0-0", "16383-0", "0-16384", "5-18446744073709551615", "0-99999999999999999999", "1-", "-", "3", "0-1-2",
+        "100-200", "0-8000"]))
+}
+
+#[derive(Clone, Copy, PartialEq)]
+enum FK { Fixed, Num, Name, Addr, Range }
+
+/// well-formed control-plane commands with the kind of each field
+fn ctl_templates(local: &str, me: &str) -> Vec<(Vec<(Vec<u8>, FK)>, &'static str)> {
+    let f = |x: &str| (s(x), FK::Fixed);
+    let n = |x: &str| (s(x), FK::Num);
+    let a = |x: &str| (s(x), FK::Addr);
+    let mig = |v: &mut Vec<(Vec<u8>, FK)>| {
+        v.extend(vec![f("MIGRATING"), n("1"), (s("0-8000"), FK::Range), n("5"), a(me), a(local), a("127.0.0.1:1"), a("127.0.0.1:2")]);
+    };
+    let mut out = vec![];
+    out.push((vec![f("UMCTL"), f("SETCLUSTER"), f("v2"), n("5"), f("FORCE"), (s("mydb"), FK::Name), a(local), n("1"), (s("0-16383"), FK::Range),
+        f("PEER"), a("127.0.0.1:9"), n("1"), (s("100-200"), FK::Range), f("CONFIG"), f("migration_scan_count"), n("16")], "ctl.setcluster"));
+    let mut t = vec![f("UMCTL"), f("SETCLUSTER"), f("v2"), n("5"), f("FORCE"), (s("mydb"), FK::Name), a(local)];
+    mig(&mut t);
+    out.push((t, "ctl.setcluster-tagged"));
+    out.push((vec![f("UMCTL"), f("SETREPL"), n("5"), f("FORCE"), f("master"), (s("mydb"), FK::Name), a(local), n("1"), a("127.0.0.1:7"), a("127.0.0.1:8"),
+        f("replica"), (s("mydb"), FK::Name), a(local), n("0")], "ctl.setrepl"));
+    for sw in ["PRECHECK", "PRESWITCH", "FINALSWITCH"] {
+        let mut t = vec![f("UMCTL"), f(sw), f("v2"), (s("mydb"), FK::Name)];
+        mig(&mut t);
+        out.push((t, "ctl.switch"));
+    }
+    out
+}
+
+fn ctl_mutate(rng: &mut Rng, t: &[(Vec<u8>, FK)], inproc: bool, local: &str, kinds: &[FK]) -> Vec<Vec<u8>> {
+    let idx: Vec<usize> = t.iter().enumerate().filter(|(_, (_, k))| kinds.contains(k)).map(|(i, _)| i).collect();
+    let mut c: Vec<Vec<u8>> = t.iter().map(|(v, _)| v.clone()).collect();
+    let k = if rng.chance(1, 4) { 2 } else { 1 };
+    for _ in 0..k {
+        if idx.is_empty() { break; }
+        let i = *rng.pick(&idx);
+        c[i] = match t[i].1 { FK::Num => ctl_num(rng, inproc), FK::Name => ctl_name(rng), FK::Addr => ctl_addr(rng, local), FK::Range => ctl_range(rng), FK::Fixed => c[i].clone() };
+    }
+    c
+}
+
+/// the deterministic part of the control-plane family: every name shape in every name field, every boundary number
+/// in every count field of the well-formed templates (one field at a time)
+fn ctl_sweep(local: &str, me: &str, full: bool) -> Vec<(Vec<Vec<u8>>, &'static str)> {
+    let mut names: Vec<Vec<u8>> = vec![vec![], vec![b'n'; 31], vec![b'n'; 32], s("my db"), vec![0xff, b'a']];
+    let pads: &[usize] = if full { &[22, 23, 24, 29, 30] } else { &[22, 23, 29] };
+    let chars: &[&str] = if full { &["é", "中", "€", "Ａ"] } else { &["é", "中"] };
+    for pad in pads {
+        for ch in chars { let mut v = vec![b'a'; *pad]; v.extend_from_slice(ch.as_bytes()); names.push(v); }
+    }
+    let nums = ["0", "2", "2147483648", "4294967296", "100000000000000", "9223372036854775807", "18446744073709551615", "-1", "x"];
+    let mut out = vec![];
+    for (t, class) in ctl_templates(local, me) {
+        if class == "ctl.switch" && t[1].0 != b"PRESWITCH" { continue; }
+        if !full && (class == "ctl.switch" || class == "ctl.setcluster-tagged") { continue; }
+        for (i, (_, k)) in t.iter().enumerate() {
+            let vals: Vec<Vec<u8>> = match k {
+                FK::Name => names.clone(),
+                FK::Num if class != "ctl.switch" => nums.iter().map(|x| s(x)).collect(),
+                _ => vec![],
+            };
+            for v in vals { let mut c: Vec<Vec<u8>> = t.iter().map(|(x, _)| x.clone()).collect(); c[i] = v; out.push((c, class)); }
+        }
+    }
+    out
+}
+
+/// one hostile control-plane command (argument vector); every UMCTL sub-command a connection may send, CONFIG,
+/// CLUSTER, UMFORWARD, UMSYNC, COMMAND; `local` = an address on the proxy's announce host, `me` = the proxy
+fn gen_ctl(rng: &mut Rng, inproc: bool, local: &str, me: &str) -> (Vec<Vec<u8>>, &'static str) {
+    let num = |rng: &mut Rng| ctl_num(rng, inproc);
+    let tagged = |rng: &mut Rng, c: &mut Vec<Vec<u8>>| {
+        c.push(s(*rng.pick(&["MIGRATING", "IMPORTING", "migrating", "MOVING"])));
+        let n = if rng.chance(1, 2) { s("1") } else { ctl_num(rng, inproc) };
+        c.push(n);
+        c.push(ctl_range(rng));
+        c.push(if rng.chance(1, 2) { s("7") } else { ctl_num(rng, inproc) });
+        for i in 0..4 { c.push(if rng.chance(1, 5) { ctl_addr(rng, local) } else if i == 0 { s(me) } else if i == 1 { s(local) } else { s("127.0.0.1:1") }); }
+    };
+    if rng.chance(1, 2) {
+        // a well-formed command with one (sometimes two) hostile fields
+        let ts = ctl_templates(local, me);
+        let (t, class) = rng.pick(&ts).clone();
+        return (ctl_mutate(rng, &t, inproc, local, &[FK::Num, FK::Name, FK::Addr, FK::Range]), class);
+    }
+    match rng.below(16) {
+        0 | 1 | 2 => {
+            // textual SETCLUSTER
+            let mut c = vec![s("UMCTL"), s("SETCLUSTER"), if rng.chance(1, 8) { s("v1") } else { s("v2") },
+                if rng.chance(1, 2) { s("5") } else { num(rng) }, s(*rng.pick(&["FORCE", "NOFLAG", "force", "FORCE,COMPRESS,x", ""])),
+                if rng.chance(1, 3) { s("mydb") } else { ctl_name(rng) }];
+            for _ in 0..rng.range(0, 2) {
+                c.push(if rng.chance(1, 3) { ctl_addr(rng, local) } else { s(local) });
+                if rng.chance(1, 3) { tagged(rng, &mut c); } else {
+                    c.push(if rng.chance(1, 2) { s("1") } else { num(rng) });
+                    c.push(ctl_range(rng));
+                }
+            }
+            if rng.chance(1, 3) { c.push(s("PEER")); c.push(ctl_addr(rng, "127.0.0.1:9")); c.push(num(rng)); c.push(ctl_range(rng)); }
+            if rng.chance(1, 3) { c.push(s("CONFIG")); c.push(s(*rng.pick(&["compression_strategy", "migration_max_migration_time", "migration_scan_count", "x"]))); c.push(num(rng)); }
+            (c, "ctl.setcluster")
+        }
+        3 => {
+            // compressed SETCLUSTER: a real blob with boundary fields, or a damaged one
+            let name = ClusterName::try_from(std::str::from_utf8(&ctl_name(rng)).unwrap_or("x")).unwrap_or_else(|_| ClusterName::try_from("mydb").expect("name"));
+            let mut local_map = HashMap::new();
+            let meta = MigrationMeta { epoch: 3, src_proxy_address: me.to_string(), src_node_address: local.to_string(),
+                dst_proxy_address: String::from_utf8_lossy(&ctl_addr(rng, "127.0.0.1:1")).to_string(), dst_node_address: "127.0.0.1:2".to_string() };
+            let rl = raw_range_list(&[(*rng.pick(&[0usize, 300, 16383, 70000]), *rng.pick(&[0usize, 100, 16383, 16384, usize::MAX]))]);
+            local_map.insert(String::from_utf8_lossy(&ctl_addr(rng, local)).to_string(),
+                vec![SlotRange { range_list: rl, tag: if rng.chance(1, 2) { SlotRangeTag::Migrating(meta) } else { SlotRangeTag::None } }]);
+            let m = ProxyClusterMeta::new(9, ClusterMapFlags { force: true, compress: true }, name, local_map, HashMap::new(), ClusterConfig::default());
+            let mut args = m.to_compressed_args().unwrap_or_default();
+            if let Some(blob) = args.last_mut() {
+                match rng.below(4) { 0 => { blob.truncate(blob.len() / 2); } 1 => { *blob = "!!!not-base64".to_string(); } 2 => { *blob = String::new(); } _ => {} }
+            }
+            if rng.chance(1, 4) && args.len() > 1 { args[1] = String::from_utf8_lossy(&num(rng)).to_string(); }
+            let mut c = vec![s("UMCTL"), s("SETCLUSTER")];
+            c.extend(args.into_iter().map(|a| a.into_bytes()));
+            (c, "ctl.setcluster-compressed")
+        }
+        4 | 5 | 6 => {
+            let mut c = vec![s("UMCTL"), s("SETREPL"), if rng.chance(1, 2) { s("5") } else { num(rng) }, s(*rng.pick(&["NOFLAG", "FORCE", ""]))];
+            for _ in 0..rng.range(0, 2) {
+                c.push(s(*rng.pick(&["master", "replica", "MASTER", "x", ""])));
+                c.push(if rng.chance(1, 2) { s("mydb") } else { ctl_name(rng) });
+                c.push(if rng.chance(1, 2) { s(local) } else { ctl_addr(rng, local) });
+                let declared = if rng.chance(1, 3) { s("1") } else { num(rng) };
+                c.push(declared);
+                for _ in 0..rng.range(0, 2) { c.push(ctl_addr(rng, "127.0.0.1:7")); c.push(ctl_addr(rng, "127.0.0.1:8")); }
+            }
+            (c, "ctl.setrepl")
+        }
+        7 | 8 => {
+            let mut c = vec![s("UMCTL"), s(*rng.pick(&["PRECHECK", "PRESWITCH", "FINALSWITCH", "TMPSWITCH", "preswitch"])), s(*rng.pick(&["v2", "v1", ""])),
+                if rng.chance(1, 2) { s("mydb") } else { ctl_name(rng) }];
+            tagged(rng, &mut c);
+            if rng.chance(1, 4) { c.truncate(rng.range(2, c.len() as i64) as usize); }
+            (c, "ctl.switch")
+        }
+        9 => (vec![s("UMCTL"), s("SLOWLOG"), s(*rng.pick(&["GET", "get", "RESET", "x"])), num(rng)], "ctl.slowlog"),
+        10 => (vec![s("UMCTL"), s(*rng.pick(&["INFOMGR", "INFOREPL", "INFO", "GETEPOCH", "READY", "STATS", "LISTCLUSTER", "DEBUG", "infomgr"])), s("FUTURE"), num(rng)], "ctl.info"),
+        11 => {
+            let field = s(*rng.pick(&["slowlog_sample_rate", "slowlog_log_slower_than", "slowlog_len", "password", "address", "SLOWLOG_SAMPLE_RATE", "", "x"]));
+            if rng.chance(1, 2) { (vec![s("CONFIG"), s("SET"), field, num(rng)], "ctl.config-set") } else { (vec![s("CONFIG"), s(*rng.pick(&["GET", "get", "x"])), if rng.chance(1, 3) { ctl_name(rng) } else { field }], "ctl.config-get") }
+        }
+        12 => (vec![s("UMFORWARD"), num(rng), s(*rng.pick(&["GET", "CLUSTER", "UMCTL", "UMFORWARD", "EVAL", "BLPOP"])), ctl_name(rng), num(rng), s("k"), s("1")], "ctl.umforward"),
+        13 => { let mut c = vec![s("UMSYNC")]; for _ in 0..rng.range(0, 4) { c.push(if rng.chance(1, 2) { num(rng) } else { ctl_name(rng) }); } (c, "ctl.umsync") }
+        14 => (vec![s("CLUSTER"), s(*rng.pick(&["KEYSLOT", "NODES", "SLOTS", "keyslot", "INFO", ""])), ctl_name(rng), num(rng)], "ctl.cluster"),
+        _ => (vec![s("COMMAND"), num(rng)], "ctl.command"),
+    }
+}
+
 struct Gen {
     bytes: Vec<u8>,
     class: &'static str,
@@ -1144,15 +1411,18 @@ fn gen_pipeline(rng: &mut Rng) -> Gen {
 
 /// a command that would change the configuration of the proxy under test or stop it: never sent
 fn dangerous(b: &[u8]) -> bool {
+    dangerous_in(b, false)
+}
+
+/// `ctl`: the control-plane family runs on a child that is restarted afterwards: only SHUTDOWN stays excluded
+fn dangerous_in(b: &[u8], ctl: bool) -> bool {
     if !inproc_safe_for_packets(b) { return false; }
     packets_of(b).iter().any(|c| {
         let c = strip_forward(c);
         let n0 = c.first().and_then(|x| x.clone()).map(|x| upper(&x)).unwrap_or_default();
         let n1 = c.get(1).and_then(|x| x.clone()).map(|x| upper(&x)).unwrap_or_default();
         (n0 == b"UMCTL" && (n1 == b"SHUTDOWN"))
-            || (n0 == b"CONFIG" && n1 == b"SET")
-            || n0 == b"COMMAND"
-            || n0 == b"UMSYNC"
+            || (!ctl && ((n0 == b"CONFIG" && n1 == b"SET") || n0 == b"COMMAND" || n0 == b"UMSYNC"))
     })
 }
 
@@ -1220,6 +1490,22 @@ fn run_inproc_op(toks: &[&str], st: &mut Streams, op: &str) {
         ["name", h] => unhex(h).map(|b| op_name(&b)).unwrap_or_else(|| "bad-op".into()),
         ["clustername", h] => unhex(h).map(|b| op_clustername(&b).to_string()).unwrap_or_else(|| "bad-op".into()),
         ["usize", h] => unhex(h).map(|b| op_usize(&b)).unwrap_or_else(|| "bad-op".into()),
+        [which @ ("setrepl" | "setmeta"), rest @ ..] => {
+            let a: Option<Vec<Option<Vec<u8>>>> = rest.iter().map(|t| if *t == "~" { Some(None) } else { unhex(t).map(Some) }).collect();
+            match a {
+                Some(a) => {
+                    let (line, alloc, bytes) = op_ctl_parser(which, &a);
+                    st.stats.count(&format!("out.{}.{}", which, line.replace(' ', "_")));
+                    if line != "done big=0" {
+                        let c = st.cases;
+                        report_failure(&mut st.stats, c, &format!("UMCTL {} parser: {} ({} bytes requested for {} argument bytes)",
+                            if *which == "setrepl" { "SETREPL" } else { "SETCLUSTER / switch" }, line, alloc, bytes), "", vec![op.to_string()]);
+                    }
+                    line
+                }
+                None => "bad-op".to_string(),
+            }
+        }
         ["rangemap", rest @ ..] => match parse_ranges(rest) {
             Some(rs) => {
                 let r = op_rangemap(&rs);
@@ -1236,7 +1522,8 @@ fn run_inproc_op(toks: &[&str], st: &mut Streams, op: &str) {
         ["utf8", h] => unhex(h).map(|b| if std::str::from_utf8(&b).is_ok() { "valid".to_string() } else { "invalid".to_string() }).unwrap_or_else(|| "bad-op".into()),
         _ => "bad-op".to_string(),
     };
-    if out == "PANIC" && !op.starts_with("parse") && !op.starts_with("decode") && !op.starts_with("slowlog") && !op.starts_with("rangemap") {
+    if out == "PANIC" && !op.starts_with("parse") && !op.starts_with("decode") && !op.starts_with("slowlog") && !op.starts_with("rangemap")
+        && !op.starts_with("setrepl") && !op.starts_with("setmeta") {
         let c = st.cases;
         report_failure(&mut st.stats, c, "in-process operation panicked", "", vec![op.to_string()]);
     }
@@ -1280,7 +1567,15 @@ fn inproc_stream(args: &Args, rng: &mut Rng) {
             let l = cfg_line(es, false);
             st.op(&l, "ok");
         }
-        let (op, class): (String, &str) = match rng.below(20) {
+        let (op, class): (String, &str) = match rng.below(23) {
+            20 | 21 | 22 => {
+                // hostile control-plane arguments through the real parsers
+                let (c, class) = loop { let x = gen_ctl(rng, true, "127.0.0.1:7001", "127.0.0.1:5299"); if x.1.starts_with("ctl.setcluster") || x.1 == "ctl.setrepl" || x.1 == "ctl.switch" { break x; } };
+                let which = if class == "ctl.setrepl" { "setrepl" } else { "setmeta" };
+                let mut toks: Vec<String> = c.iter().skip(2).map(|a| hex(a)).collect();
+                if !toks.is_empty() && rng.chance(1, 10) { let i = rng.below(toks.len() as u64) as usize; toks[i] = "~".to_string(); }
+                (format!("{} {}", which, toks.join(" ")), if which == "setrepl" { "ctl-parser.setrepl" } else { "ctl-parser.setcluster" })
+            }
             0 => (format!("parse {}", hex(&resp_gen(rng, 0))), "parse.value"),
             1 => { let mut b = resp_gen(rng, 0); let cut = rng.below(b.len() as u64 + 1) as usize; b.truncate(cut); (format!("parse {}", hex(&b)), "parse.truncated") }
             2 => { let base = resp_gen(rng, 0); (format!("parse {}", hex(&mutate(rng, &base))), "parse.mutated") }
@@ -1305,6 +1600,7 @@ fn inproc_stream(args: &Args, rng: &mut Rng) {
                 (format!("slowlog {}", toks.join(" ")), "slowlog")
             }
             14 => (format!("name {}", hex(&{ let x = gen_name(rng); packets_of(&x.bytes).first().and_then(|c| c.first().cloned().flatten()).unwrap_or_default() })), "name"),
+            15 if rng.chance(1, 2) => (format!("clustername {}", hex(&ctl_name(rng))), "clustername.boundary"),
             15 => { let n = *rng.pick(&[0usize, 1, 30, 31, 32, 33, 100]); let v: Vec<u8> = (0..n).map(|_| *rng.pick(&[b'a', b'Z', b'0', b'@', b'-', b'_', b'.', b' ', 0xc3, 0xa9])).collect(); (format!("clustername {}", hex(&v)), "clustername") }
             16 => if rng.chance(1, 2) { (format!("usize {}", hex(&extreme_uint(rng))), "usize") } else {
                 let n = rng.range(1, 4) as usize;
@@ -1341,6 +1637,8 @@ struct ChildCtx {
     walls: Vec<u128>,
     max_rss_growth: u64,
     quiet_ms: u64,
+    /// op lines that must precede the failing one in a replay (the command that installed the state)
+    replay_prefix: Vec<String>,
 }
 
 impl ChildCtx {
@@ -1388,7 +1686,9 @@ fn run_child_conn(cx: &mut ChildCtx, st: &mut Streams, input: &[u8], hint: Optio
     let kind = obs.line.split(' ').next().unwrap_or("?").to_string();
     st.stats.count(&format!("out.{}.{}", cx.phase, kind));
     let case = st.cases;
-    let replay = vec![cfg_line(std::mem::size_of::<RespIndex>(), cx.ar), format!("phase {}", cx.phase), op.clone()];
+    let mut replay = vec![cfg_line(std::mem::size_of::<RespIndex>(), cx.ar), format!("phase {}", cx.phase)];
+    replay.extend(cx.replay_prefix.iter().cloned());
+    replay.push(op.clone());
     let panics = cx.proxy.new_panics();
     // ---- the property's oracle on the implementation ----
     match kind.as_str() {
@@ -1520,7 +1820,7 @@ fn child_stream(args: &Args, rng: &mut Rng) {
     let backend = spawn_backend();
     let proxy = spawn_proxy(&bin, &tmp, ar);
     let mut cx = ChildCtx { bin, tmp, backend_port: backend.port, proxy, phase: "pre".into(), ar, epoch: 0, restarts: 0,
-        nonce: args.seed << 20, walls: vec![], max_rss_growth: 0, quiet_ms: if args.thorough { 80 } else { 250 } };
+        nonce: args.seed << 20, walls: vec![], max_rss_growth: 0, quiet_ms: if args.thorough { 80 } else { 250 }, replay_prefix: vec![] };
     let es = std::mem::size_of::<RespIndex>();
     if let Some(p) = &args.replay {
         st.case();
@@ -1610,6 +1910,46 @@ fn child_stream(args: &Args, rng: &mut Rng) {
         st.stats.count(&format!("gen.{}", gen.class));
         st.stats.count(&format!("phase.{}", ph));
         run_child_conn(&mut cx, &mut st, &gen.bytes, gen.hint, gen.class);
+    }
+    // hostile control-plane arguments, each followed by stateful probes on the same and on a second connection
+    let probes: Vec<Vec<Vec<u8>>> = vec![
+        vec![s("CLUSTER"), s("NODES")], vec![s("CLUSTER"), s("SLOTS")], vec![s("UMCTL"), s("INFO")], vec![s("UMCTL"), s("GETEPOCH")],
+        vec![s("GET"), s("{t}k")], vec![s("GET"), s("b")], vec![s("UMCTL"), s("INFOREPL")], vec![s("UMCTL"), s("INFOMGR")],
+    ];
+    let probe_bytes: Vec<u8> = probes.iter().flat_map(|c| cmd_bytes(c)).collect();
+    let groups = if args.thorough { 600 } else { 25 };
+    let local = format!("127.0.0.1:{}", cx.backend_port);
+    cx.phase = "pre".into();
+    cx.restart();
+    // the proxy's own address changes with every restart: a placeholder stands for it in the sweep
+    const ME: &str = "127.0.0.1:0";
+    let sweep = ctl_sweep(&local, ME, args.thorough);
+    let n_sweep = sweep.len();
+    let mut sweep = sweep.into_iter();
+    for gi in 0..(groups + n_sweep) {
+        if gi % 20 == 0 {
+            st.case();
+            let l = cfg_line(es, ar);
+            st.op(&l, "ok");
+            st.op("phase pre", "ok");
+        }
+        let me = format!("127.0.0.1:{}", cx.proxy.port);
+        let (c, class) = match sweep.next() {
+            Some((c, class)) => (c.into_iter().map(|a| if a == ME.as_bytes() { me.clone().into_bytes() } else { a }).collect(), class),
+            None => gen_ctl(rng, false, &local, &me),
+        };
+        let h = cmd_bytes(&c);
+        if dangerous_in(&h, true) { st.stats.count("gen.skipped-dangerous"); continue; }
+        st.stats.count(&format!("gen.{}", class));
+        let mut first = h.clone();
+        first.extend_from_slice(&probe_bytes);
+        cx.replay_prefix.clear();
+        run_child_conn(&mut cx, &mut st, &first, None, class);
+        // what the command installed must not hurt other clients either
+        cx.replay_prefix = vec![format!("conn {}", hex(&first))];
+        run_child_conn(&mut cx, &mut st, &probe_bytes, None, "ctl.followup");
+        cx.replay_prefix.clear();
+        cx.restart();
     }
     // UMCTL SETCLUSTER with a tagged range list (each one is followed by a restart of the child)
     st.case();
